@@ -17,14 +17,16 @@ func runFmt(w *out.W, tier, dial string) {
 	w.Exhaust = true
 	n := 0
 	for _, o := range pickOps(dial) {
-		if !modelled[o.name] {
-			continue
-		}
 		for _, g := range gridTypes(o, tier) {
 			n++
 			id := fmt.Sprintf("%s-%05d", o.name[:1], n)
 			r := o.observe(g.t)
-			w.Case(id, o.name+" "+showType(g.t), r.lines())
+			if modelled[o.name] {
+				w.Case(id, o.name+" "+showType(g.t), r.lines())
+			} else {
+				// no Coq model of this dialect's FormatType/ParseType yet: property oracle only
+				w.ImplOnly(id, o.name+" "+showType(g.t)+" => "+fmt.Sprint(r.lines()))
+			}
 			w.Count(o.name + "/" + g.origin)
 			w.Count("fmt/" + r.fmtSt)
 			w.Count("parse/" + r.parseSt)
